@@ -38,6 +38,7 @@ import pcmodel
 from pcmodel import SweepView, extract_sweep, outer_loops, NotRecognised
 import pcsym
 from pcsym import VecEval, NotStraight, Summaries, W, A, D, F
+import norm_c08
 
 SOLVER = "kernel/solver/"
 PC_FILES = ("jacobi_precond.hpp", "sor_precond.hpp", "ssor_precond.hpp", "ilu_precond.hpp", "polynomial_precond.hpp",
@@ -47,6 +48,10 @@ IMPL = {   # class template -> kind
     "MatrixPrecond": "matrix", "SORPrecondWithBackend": "sor", "SSORPrecondWithBackend": "ssor", "ILUPrecondWithBackend": "ilu",
 }
 WRAPPERS = {"SORPrecond": "sor", "SSORPrecond": "ssor", "ILUPrecond": "ilu"}
+# member functions the rules anchor by name (as functions or as call sites): never inlined into their callers
+ANCHORED = {"apply", "init_symbolic", "init_numeric", "done_symbolic", "done_numeric", "_apply_intern", "_insert", "name",
+            "set_struct", "set_struct_csr", "set_struct_bcsr", "factorize_symbolic", "alloc_data", "copy_data", "copy_data_csr", "copy_data_bcsr",
+            "factorize_numeric_il_du", "solve_il", "solve_du", "solve_ilt", "solve_dut", "set_omega", "set_fill_in_param", "clear"}
 
 
 def tmpl(cls):
@@ -76,7 +81,25 @@ def stmts_of(view):
 
 
 def refs_to(node, d):
-    return [x for x in walk(node) if x.get("k") == "Ref" and x.get("d") == d]
+    ds = d if isinstance(d, (set, frozenset)) else {d}
+    return [x for x in walk(node) if x.get("k") == "Ref" and x.get("d") in ds]
+
+
+def alias_set(view, d):
+    """decl ids that denote the same object as parameter d: d itself and never-reassigned locals initialised from it
+    (`VectorType& out = vec_cor;`, `auto* p = q;`) — named aliases are the object they name"""
+    s = {d}
+    changed = True
+    while changed:
+        changed = False
+        for ld, var in view.locals.items():
+            if ld in s or var.get("init") is None or view.writes.get(ld):
+                continue
+            iv = strip(var["init"])
+            if iv.get("k") == "Ref" and iv.get("d") in s:
+                s.add(ld)
+                changed = True
+    return frozenset(s)
 
 
 # -------------------------------------------------------------------------------------------------
@@ -87,13 +110,14 @@ DEFINING = {"copy": 0, "scale": 0, "component_product": None, "format": None}
 
 
 def out_aliases(view, d):
-    """locals initialised from out.elements() (pointer aliases of the output)"""
+    """locals initialised from out.elements() (pointer aliases of the output), and copies of such pointers"""
+    ds = alias_set(view, d)
     al = set()
     for ld, var in view.locals.items():
         init = var.get("init")
         if init is not None:
-            iv = strip(init)
-            if iv.get("k") == "MCall" and iv.get("n") == "elements" and strip(iv.get("obj") or {}).get("d") == d:
+            iv = view.value(init)
+            if iv.get("k") == "MCall" and iv.get("n") == "elements" and view.value(iv.get("obj") or {}).get("d") in ds:
                 al.add(ld)
     return al
 
@@ -153,13 +177,14 @@ def check_apply(ck, f, inst, kind):
     if len(f.params) != 2:
         ck.incomplete("E7.filter-follows", "%s: apply() does not take (out, in)" % inst)
         return None
-    out_d, in_d = f.params[0]["d"], f.params[1]["d"]
-    aliases = out_aliases(view, out_d)
+    in_d = f.params[1]["d"]
+    out_d = alias_set(view, f.params[0]["d"])       # the output parameter and its named reference aliases
+    aliases = out_aliases(view, f.params[0]["d"])
     filt = []
     for e in stmts_of(view):
         n = view.byid.get(e)
         if n and n.get("k") == "MCall" and n.get("n") == "filter_cor" and pcsym.this_field(view.value(n.get("obj") or {})) == "_filter" \
-                and len(n.get("a", [])) == 1 and strip(n["a"][0]).get("k") == "Ref" and strip(n["a"][0])["d"] == out_d:
+                and len(n.get("a", [])) == 1 and strip(n["a"][0]).get("k") == "Ref" and strip(n["a"][0])["d"] in out_d:
             filt.append(e)
     # (1) every normal exit passes the filter
     _, escapes = view.flow_from(None, stop=set(filt))
@@ -171,10 +196,10 @@ def check_apply(ck, f, inst, kind):
             n = view.byid.get(e)
             if n is None or e in filt:
                 continue
-            for r in [x for x in walk(n) if x.get("k") == "Ref" and (x.get("d") == out_d or x.get("d") in aliases)]:
+            for r in [x for x in walk(n) if x.get("k") == "Ref" and (x.get("d") in out_d or x.get("d") in aliases)]:
                 if view.pos(e) is None:
                     continue
-                uk = use_kind(view, r, out_d, in_d) if r.get("d") == out_d else "write"
+                uk = use_kind(view, r, out_d, in_d) if r.get("d") in out_d else "write"
                 if uk == "unknown-mut":
                     continue      # reported as an unmodelled construct below (incomplete), not as a late write
                 if uk not in ("const",):
@@ -188,7 +213,7 @@ def check_apply(ck, f, inst, kind):
         n = view.byid.get(e)
         if n is None:
             continue
-        for r in [x for x in walk(n) if x.get("k") == "Ref" and x.get("d") == out_d]:
+        for r in [x for x in walk(n) if x.get("k") == "Ref" and x.get("d") in out_d]:
             par = view.parent.get(r["i"])
             while par is not None and par.get("k") == "Cast":
                 par = view.parent.get(par["i"])
@@ -212,7 +237,7 @@ def check_apply(ck, f, inst, kind):
         after, _ = view.flow_from(fe)
         for e in after:
             n = view.byid.get(e)
-            for r in [x for x in walk(n or {}) if x.get("k") == "Ref" and x.get("d") == out_d]:
+            for r in [x for x in walk(n or {}) if x.get("k") == "Ref" and x.get("d") in out_d]:
                 par = view.parent.get(r["i"])
                 if par is not None and par.get("i") == e and use_kind(view, r, out_d, in_d) == "unknown-mut":
                     late_unknown = True
@@ -238,7 +263,7 @@ def check_apply(ck, f, inst, kind):
         n = view.byid.get(e)
         if n is None:
             continue
-        for r in [x for x in walk(n) if x.get("k") == "Ref" and x.get("d") == out_d]:
+        for r in [x for x in walk(n) if x.get("k") == "Ref" and x.get("d") in out_d]:
             par = view.parent.get(r["i"])
             while par is not None and par.get("k") == "Cast":
                 par = view.parent.get(par["i"])
@@ -302,7 +327,11 @@ def check_sweeps(ck, f, inst, kind):
     """kind: 'sor' | 'ssor'"""
     blocked = "BCSR" in f.cls
     view = SweepView(f, f.params[1]["d"], f.params[2]["d"], blocked)
-    loops = outer_loops(view)
+    try:
+        loops = outer_loops(view)
+    except NotRecognised as ex:
+        ck.incomplete("E2.sweep-triangular", "%s: %s" % (inst, ex))
+        return
     sweeps = []
     for lp in loops:
         try:
@@ -355,7 +384,11 @@ def check_sweeps(ck, f, inst, kind):
 def check_ilu_solve(ck, f, inst):
     blocked = "Blocked" in f.cls
     view = SweepView(f, f.params[0]["d"], f.params[1]["d"], blocked)
-    loops = outer_loops(view)
+    try:
+        loops = outer_loops(view)
+    except NotRecognised as ex:
+        ck.incomplete("E2.ilu-solve", "%s: %s" % (inst, ex))
+        return
     if len(loops) != 1:
         ck.incomplete("E2.ilu-solve", "%s: %d row loops" % (inst, len(loops)))
         return
@@ -447,7 +480,7 @@ def call_sequence_rule(ck, rule, inst, f, names, what):
 
 def check_omega_scale(ck, f, inst, kind):
     view = FnView(f)
-    out_d = f.params[0]["d"]
+    out_d = alias_set(view, f.params[0]["d"])
     sweep = [e for e in stmts_of(view) if (view.byid.get(e) or {}).get("n") == "_apply_intern"]
     if not sweep:
         ck.incomplete("E6.omega-scale", "%s: no call of _apply_intern" % inst)
@@ -457,9 +490,9 @@ def check_omega_scale(ck, f, inst, kind):
     bad = None
     for e in stmts_of(view):
         n = view.byid.get(e)
-        if n and n.get("k") == "MCall" and n.get("n") == "scale" and strip(n.get("obj") or {}).get("d") == out_d:
+        if n and n.get("k") == "MCall" and n.get("n") == "scale" and strip(n.get("obj") or {}).get("d") in out_d:
             a = n.get("a", [])
-            if len(a) != 2 or strip(a[0]).get("d") != out_d:
+            if len(a) != 2 or strip(a[0]).get("d") not in out_d:
                 bad = "scale() of the output does not scale the output itself: %s" % render(n)
                 continue
             try:
@@ -482,7 +515,7 @@ def check_omega_scale(ck, f, inst, kind):
         n = view.byid.get(e)
         if n is None or e in where or n.get("n") in ("filter_cor", "size", "template size"):
             continue
-        for r in [x for x in walk(n) if x.get("k") == "Ref" and x.get("d") == out_d]:
+        for r in [x for x in walk(n) if x.get("k") == "Ref" and x.get("d") in out_d]:
             par = view.parent.get(r["i"])
             if par is not None and par.get("i") == e and use_kind(view, r, out_d, f.params[1]["d"]) not in ("const", "filter"):
                 ck.incomplete("E6.omega-scale", "%s: the output is modified after the sweeps by %s, which is not a scale() of the output" % (inst, render(n)[:70]))
@@ -1647,11 +1680,14 @@ def run(tier):
     for e in (facts.errors_in_repo() + facts.errors_outside_repo())[:3]:
         ck.incomplete("E7.filter-follows", "driver TU tu/c08_precond.cpp does not compile: %s:%d %s" % (e["file"], e["line"], e["msg"][:200]))
     S = Summaries(facts)
+    # private helpers that no rule anchors by name (extracted blocks, forwarding overloads) are inlined, body and CFG
+    inl = norm_c08.Inliner(facts)
+    not_anchored = lambda call, cal: cal.name not in ANCHORED
     classes = {}
     for f in facts.functions:
         if f.tk == "pattern":
             continue
-        classes.setdefault(f.cls, {}).setdefault(f.name, []).append(f)
+        classes.setdefault(f.cls, {}).setdefault(f.name, []).append(inl.inline(f, want=not_anchored))
     seen_kinds = set()
     for cls in sorted(classes):
         t = tmpl(cls)
@@ -1693,10 +1729,11 @@ def run(tier):
                 n = v.byid.get(e)
                 if n and n.get("k") == "MCall" and n.get("n") in ("solve_il", "solve_du"):
                     a = [strip(x) for x in n.get("a", [])]
+                    a = [x if x.get("d") in al else v.value(x) for x in a]
                     x_ok = len(a) == 2 and a[0].get("d") in al
                     if n["n"] == "solve_il":
                         src = v.value(a[1]) if len(a) == 2 else {}
-                        b_ok = src.get("k") == "MCall" and src.get("n") == "elements" and strip(src.get("obj") or {}).get("d") == ap.params[1]["d"]
+                        b_ok = src.get("k") == "MCall" and src.get("n") == "elements" and v.value(src.get("obj") or {}).get("d") == ap.params[1]["d"]
                     else:
                         b_ok = len(a) == 2 and a[1].get("d") in al
                     ck.ob("E8.ilu-init-order", "%s::apply/%s operands" % (inst, n["n"]), x_ok and b_ok,
